@@ -665,6 +665,8 @@ class MultiFit(FitBase):
             _gof_sum += self._shared_cost_function.goodness_of_fit(
                 *[self._nexus.get(_node_name).value for _node_name in self._shared_cost_function.arg_names]
             )
+        for _constraint in self._fit_param_constraints:  # constraints of the multifit itself
+            _gof_sum += _constraint.cost(self.parameter_values)
         return _gof_sum
 
     @property
